@@ -112,7 +112,7 @@ func (w *world) enabled() []wop {
 					}
 				}
 				if len(o.msg.Variables()) > 0 && hroom {
-					ops = append(ops, wop{"fill-first", i, 0, 0}, wop{"fill-all", i, 0, 0})
+					ops = append(ops, wop{"fill-first", i, 0, 0}, wop{"fill-all", i, 0, 0}, wop{"fill-first", i, 0, 1}, wop{"fill-all", i, 0, 1})
 				}
 				for j, hd := range w.held {
 					if hd.m != nil {
@@ -142,7 +142,7 @@ func (w *world) enabled() []wop {
 			}
 			if room {
 				if len(o.item.Variables()) > 0 && hroom {
-					ops = append(ops, wop{"fill-first", i, 0, 0}, wop{"fill-all", i, 0, 0})
+					ops = append(ops, wop{"fill-first", i, 0, 0}, wop{"fill-all", i, 0, 0}, wop{"fill-first", i, 0, 1}, wop{"fill-all", i, 0, 1})
 				}
 				for j, hd := range w.held {
 					if hd.m != nil {
@@ -182,10 +182,32 @@ func (w *world) enabled() []wop {
 
 // fillMapFor builds a fill map for an object's variables from in-domain values by position in the printed form.
 func fillMapFor(vars []string, all bool, it interface{ String() string }) map[string]interface{} {
+	return fillMapAlt(vars, all, false)
+}
+
+// fillMapAlt: alt=true gives a second, different in-domain value for every variable.
+func fillMapAlt(vars []string, all bool, alt bool) map[string]interface{} {
 	m := map[string]interface{}{}
 	for i, v := range vars {
 		if i > 0 && !all {
 			break
+		}
+		if alt {
+			switch {
+			case strings.HasPrefix(v, "..."):
+				m[v] = 0
+			case strings.HasPrefix(v, "s"):
+				m[v] = "z"
+			case strings.HasPrefix(v, "n"):
+				m[v] = ast.NewASCIINode("alt")
+			case strings.HasPrefix(v, "f"):
+				m[v] = -2.25
+			case strings.HasPrefix(v, "t"):
+				m[v] = false
+			default:
+				m[v] = 8
+			}
+			continue
 		}
 		switch {
 		case strings.HasPrefix(v, "..."):
@@ -225,11 +247,11 @@ func (w *world) apply(o wop) (pan string) {
 	case "fill-first", "fill-all":
 		ob := w.objs[o.a]
 		if ob.msg != nil {
-			m := fillMapFor(ob.msg.Variables(), o.code == "fill-all", ob.msg)
+			m := fillMapAlt(ob.msg.Variables(), o.code == "fill-all", o.p == 1)
 			w.hold(wheld{m: m, from: birth})
 			w.add(wobj{msg: ob.msg.FillVariables(m)}, birth)
 		} else {
-			m := fillMapFor(ob.item.Variables(), o.code == "fill-all", nil)
+			m := fillMapAlt(ob.item.Variables(), o.code == "fill-all", o.p == 1)
 			w.hold(wheld{m: m, from: birth})
 			w.add(wobj{item: ob.item.FillVariables(m)}, birth)
 		}
@@ -438,7 +460,7 @@ func min2(a, b int) int {
 
 // c11Roots builds the initial pools; each call returns fresh objects.
 var c11RootNames = []string{"complete-message-with-caller-owned-system-bytes", "incomplete-message-two-variables", "list-template-shared-by-two-messages",
-	"control-message-from-caller-owned-header", "decoded-message-with-kept-input-buffer", "items-of-every-kind"}
+	"control-message-from-caller-owned-header", "decoded-message-with-kept-input-buffer", "items-of-every-kind", "empty-items-of-several-kinds"}
 
 func c11Root(i int) *world {
 	w := &world{}
@@ -472,6 +494,13 @@ func c11Root(i int) *world {
 		w.hold(wheld{b: buf, from: "root"})
 		m, _ := hsms.Parse(buf)
 		w.add(wobj{msg: m.(*ast.DataMessage)}, "root")
+	case 6:
+		e := ast.NewListNode()
+		w.add(wobj{item: e}, "root")
+		w.add(wobj{item: ast.NewASCIINode("")}, "root")
+		w.add(wobj{item: ast.NewUintNode(1)}, "root")
+		w.add(wobj{item: ast.NewListNode(ast.NewListNode(), ast.NewBinaryNode(), ast.NewBooleanNode())}, "root")
+		w.add(wobj{msg: ast.NewHSMSDataMessage("e", 1, 1, 0, "H->E", e, 1, []byte{1, 1, 1, 1})}, "root")
 	default:
 		w.add(wobj{item: ast.NewFloatNode(4, "f0", 1.5)}, "root")
 		w.add(wobj{item: ast.NewBooleanNode("t0", true, "t1")}, "root")
